@@ -448,7 +448,12 @@ def make_task_class(ts, module_name, g):
     src = f"def run(self{''.join(', ' + a for a in arg_names)}) -> _RET:\n    return _lab_run(self, _SPEC, {{{', '.join(repr(a) + ': ' + a for a in arg_names)}}})\n"
     env = {'_RET': RETURN_TYPES[kind], '_lab_run': lab_run, '_SPEC': ts}
     exec(src, env)
-    ns = {'Meta': type('Meta', (), meta), 'run': env['run'], '__module__': module_name, 'LAB_SPEC': ts}
+    if ts.get('meta_base') and ts['meta_base'] in g:
+        # `class Meta(Other.Meta): strict = True`: inputs, parameters, group and data class are INHERITED from the other task's Meta
+        meta_cls = type('Meta', (g[ts['meta_base']].Meta,), {'strict': True})
+    else:
+        meta_cls = type('Meta', (), meta)
+    ns = {'Meta': meta_cls, 'run': env['run'], '__module__': module_name, 'LAB_SPEC': ts}
     return type(ts['cls'], (base,), ns)
 
 
